@@ -213,9 +213,12 @@ def cases(draw, max_rows=10):
     for _ in range(nn):
         pos = draw(st.one_of(st.just(0), st.just(r), st.integers(0, r)))
         noise.append([pos, draw(noise_text)])
+    if draw(st.integers(0, 7)) == 0:
+        # a long run of comment / blank lines (longer than any sample of lines a sniffer may take) before the first row
+        noise += [[0, draw(noise_text)] for _ in range(draw(st.integers(19, 30)))]
     after = draw(st.sampled_from([[], [], [], ["P"], ["O"], ["X"], ["P", "O"], ["X", "P"], ["E"], ["O", "X"], ["OL"], ["PL"], ["X", "OL"]]))
     after = [a + str(draw(st.integers(8, 40))) if a in ("OL", "PL") else a for a in after]
-    d = c if draw(st.integers(0, 99)) < 85 else draw(st.integers(0, 10))
+    d = c if draw(st.integers(0, 99)) < (85 if len(noise) < 19 else 40) else draw(st.integers(0, 10))
     return dict(dlm=dlm, scaffold=draw(S.scaffold()), c=c, d=d, rows=rows, noise=noise, after=after, nl=draw(st.sampled_from(["\n", "\n", "\r\n"])),
                 final_nl=draw(st.sampled_from([True, True, False])),
                 atitle=draw(st.sampled_from(["~ASCII", "~A", "~A  DEPTH  GR", "~Ascii log data"])))
